@@ -697,7 +697,7 @@ def build_case(item):
   if spec[0] == 'skeleton':
     base = prepare(progen.skeleton_program(spec[1]), with_gv=spec[2])
   else:
-    base = prepare(progen.random_program(spec[1], size=spec[2]), with_gv=spec[3])
+    base = prepare(progen.random_program(spec[1], size=spec[2], avoid=('D1', 'D2', 'D6')), with_gv=spec[3])  # D18: except-as names are kept out of the renaming space (explicit witness below)
   return base, make_mapping(random.Random(mseed), base, group, style, allow_wo, allow_inner, with_extra)
 
 
